@@ -277,7 +277,7 @@ func cmdCheck(eng *Engine, args []string) int {
 				body += "query: " + qp + "\n"
 			}
 			replayed := false
-			if u.FType != nil || (ob.Result == "sat" && ob.Model != "") || id == "C16" {
+			if u.FType != nil || (ob.Result == "sat" && ob.Model != "") || id == "C16" || id == "C03" {
 				if rep := tryReplay(eng, u, ob, verifDir); rep != "" {
 					body += "\nreplay on the real code:\n" + rep
 					replayed = strings.Contains(rep, "REPRODUCED")
@@ -341,6 +341,18 @@ func cmdCheck(eng *Engine, args []string) int {
 		} else {
 			violation(r.Name, fmt.Sprintf("obligation: %s\nkind: whole-module SSA scan\ngoal: %s\n%s\n", r.Name, r.Goal, r.Detail), true)
 		}
+	}
+	if id == "C03" && tier == "thorough" {
+		// bounded cross-check on the real code (never counted as proved)
+		if faultReplayMemo == "" {
+			faultReplayMemo = replayFaults(eng)
+		}
+		if strings.Contains(faultReplayMemo, "REPRODUCED input") {
+			violation("kit.NewJApiFromFile/single-fault-documents/bounded#1", "bounded check: single-fault documents on the real code\n"+faultReplayMemo, false)
+		} else if !strings.Contains(faultReplayMemo, "DONE tried=") {
+			violation("kit.NewJApiFromFile/single-fault-documents/harness#1", "bounded check did not run:\n"+faultReplayMemo, true)
+		}
+		boundedNote = strings.TrimSpace(faultReplayMemo)
 	}
 	if id == "C16" && tier == "thorough" {
 		// bounded cross-check on the real code (never counted as proved): every history of length 3 over the five accessors
@@ -473,6 +485,7 @@ func expectedMin(verifDir, id string) int {
 
 // tryReplay: hook for replaying a solver model on the real code (see replay.go).
 var repeatReplayMemo string
+var faultReplayMemo string
 
 func tryReplay(eng *Engine, u *Unit, ob *Obligation, verifDir string) string {
 	if hasProp(ob.Props, "C16") && !hasProp(ob.Props, "C01") {
@@ -480,6 +493,12 @@ func tryReplay(eng *Engine, u *Unit, ob *Obligation, verifDir string) string {
 			repeatReplayMemo = replayRepeat(eng)
 		}
 		return repeatReplayMemo
+	}
+	if hasProp(ob.Props, "C03") && !hasProp(ob.Props, "C01") && pkgPathOf(u.Fn) != modPath+"/scanner" {
+		if faultReplayMemo == "" {
+			faultReplayMemo = replayFaults(eng)
+		}
+		return faultReplayMemo
 	}
 	return replayModel(eng, u, ob, verifDir)
 }
